@@ -419,6 +419,22 @@ fn main()
         let seed = rng.next();
         for repr in ["stabilizer", "auto", "vector"].iter() { if let Some((r, a)) = hist_line(ct, shots, seed, repr) { out.case(&r, &a); } }
     }
+    // (fixed: a qubit measured in one basis and measured AGAIN in every basis, bare and after S / H - what the basis change
+    // around a measurement leaves behind must be the collapsed state)
+    for b1 in ["X", "Y", "Z"].iter()
+    {
+        for b2 in ["X", "Y", "Z"].iter()
+        {
+            let m1 = format!("measure 0 0 {}", b1);
+            let m2 = format!("measure 0 1 {}", b2);
+            let m3 = format!("measure 1 2 {}", b1);
+            for ct in [lit(1, 2, &[&m1, &m2]), lit(1, 2, &["gate 1 0 V", &m1, "gate 1 0 S", &m2]), lit(2, 3, &["gate 1 0 H", "gate 2 0 1 CX", &m1, &m2, &m3])].iter()
+            {
+                let seed = rng.next();
+                for repr in ["stabilizer", "vector"].iter() { if let Some((r, a)) = hist_line(ct, shots, seed, repr) { out.case(&r, &a); } }
+            }
+        }
+    }
     for _ in 0..(2 * ncirc).max(8)
     {
         let ct = gen_parity_circuit(&mut rng, false, false);
